@@ -213,6 +213,16 @@ pixman_gradient_walker_pixel_32 (pixman_gradient_walker_t *walker,
     f.g = f.a * (walker->g_s * y + walker->g_b);
     f.b = f.a * (walker->b_s * y + walker->b_b);
 
+    /* The interpolation is done in single precision: far from the origin
+     * (many repetitions of the gradient) or between close stops, a channel
+     * that should be 255 can come out as 255.5 or more and would wrap around
+     * to 0 in the conversion below.
+     */
+    if (f.a > 255.f) f.a = 255.f;
+    if (f.r > 255.f) f.r = 255.f;
+    if (f.g > 255.f) f.g = 255.f;
+    if (f.b > 255.f) f.b = 255.f;
+
     return (((uint32_t)(f.a + .5f) << 24) & 0xff000000) |
            (((uint32_t)(f.r + .5f) << 16) & 0x00ff0000) |
            (((uint32_t)(f.g + .5f) <<  8) & 0x0000ff00) |
